@@ -19,15 +19,39 @@ class C11(vlib.PropertyCheck):
     assumptions = ['value expansion and the variable store are parameters of the model (property C10); for texts with expansion '
                    'characters only faults, termination, spawning and the ledger are compared',
                    'handlers do not touch the parser\'s own state',
-                   'spiftool_get_word / spiftool_get_pword never fault on a C string and depend on the string only (property C12; '
-                   'hypotheses of the theorems until LV.Split.SplitProofs provides them)',
+                   'spiftool_get_word / spiftool_get_pword are the models of property C12; their theorems (LV.Split.SplitProofs, '
+                   'SplitFrame: totality, frame, exactness) are used, not assumed',
                    'string lengths below 2^31 (spifconf_find_file keeps them in 32-bit variables); PATH_MAX as configured',
                    'mkstemp uniqueness and the mode bits are the C library\'s and the kernel\'s: that clause is decided by the harness only',
                    'termination of cyclic %include chains rests on descriptor exhaustion and is not modelled']
 
     MANIFEST = dict(
         technique='Rocq theorems about the Gallina model of the config subsystem (tables, parser loop, spifconf_find_file over lengths, lifecycle) + extracted-model/implementation correspondence check under ASan/UBSan with process creation intercepted',
-        text='',
+        text=('Rocq 8.16.1 theorems, all closed under the global context, about the Gallina model of the config subsystem '
+              '(Conf/ConfModel.v; every load and store of the model is checked, so "never reads or writes outside its buffers and '
+              'tables" is "never returns Fault"). C11_conf_no_fault: parsing arbitrary byte files (lines at and over the 20480-byte '
+              'limit, NUL bytes, missing final newline, any number of unmatched begin lines - the 8-bit indices wrap inside the '
+              'tables -, any %include structure including more than 255 nested files) never faults and keeps the table invariant; '
+              'the only Fault is Out_of_fuel. C11_terminates_plain: a file without a % directive is parsed with fuel 2 + its length '
+              '(termination in general is not proved: a file that includes itself ends by descriptor exhaustion, which is not '
+              'modelled; for %include trees it follows from C09_conf_trace when the specification\'s walk ends). C11_tables_never_wrap / C11_widths: index below capacity and capacity at most 2^9 for all '
+              'four tables after any number of pushes, with the widths and initial capacities of the source tree. '
+              'C11_find_file_in_bounds: in the model of spifconf_find_file over lengths (int32 len/maxpathlen and the short n '
+              'explicit, PATH_MAX from the configured headers) every write into name[] and full_path[] is in bounds for all lengths. '
+              'C11_no_spawn: if no file contains a backquote, "%exec" or "preproc" in any case (decidable: C11_clean_decidable) and '
+              'the expansion runs a command only for text with a backquote or "%exec" (hypothesis, property C10), the trace contains '
+              'no Spawn - the parser itself spawns on a %preproc line only and hands the expansion pieces of the files only. '
+              'C11_lifecycle: every sequence of init .. (register context | register built-in | parse | open)* .. free cycles from '
+              'any state runs without fault and ends with all four table pointers NULL and the variable list reset; '
+              'C11_init_independent: init yields the same tables from every state; C11_builtins_terminated: the built-in table '
+              'keeps its NULL-name terminator. Not proved: the heap ledger (decided by the harness: live blocks after every free, '
+              'per case), termination beyond the two cases above (harness watchdog), and the temporary-file clause (unique name, mode 0600: kernel/libc behaviour, decided by the '
+              'harness over 1000 calls in a private TMPDIR) - these three clauses are partial. Expansion and the variable store are '
+              'parameters (property C10): for texts with expansion characters only faults, termination (watchdog), spawning and the '
+              'absence of state after free are compared. The tie: extracted model vs ASan/UBSan build with system, popen, fork, '
+              'vfork, exec*, posix_spawn* intercepted at link time, on structured-random and fully random byte files, 600 unmatched '
+              'begins, %include chains up to 600 deep, table sweeps, 1-5 init..free cycles, path lengths up to 3*PATH_MAX and beyond '
+              '65536.'),
         design_ref='DESIGN.md section 7, C11')
 
     def gen(self, tier, rng):
@@ -35,6 +59,7 @@ class C11(vlib.PropertyCheck):
         cases = []
         cases += L.gen_open(rng)
         cases += L.gen_unmatched(rng, [159, 160, 161, 255, 256, 257, 300, 600] if quick else [1, 19, 20, 21, 159, 160, 161, 254, 255, 256, 257, 258, 300, 511, 512, 513, 600])
+        cases += L.gen_chain([159, 160, 161, 255, 256, 257, 300] if quick else [9, 10, 11, 19, 20, 21, 79, 80, 81, 159, 160, 161, 254, 255, 256, 257, 258, 300, 511, 512, 513, 600])
         cases += L.gen_tables(rng, [19, 20, 21, 159, 160, 161, 255] if quick else [0, 1, 19, 20, 21, 39, 40, 41, 79, 80, 81, 159, 160, 161, 247, 248, 254, 255])
         cases += L.gen_lifecycle(rng, 150 if quick else 3000)
         cases += L.gen_random_files(rng, 150 if quick else 4000, quiet=False)
@@ -47,6 +72,12 @@ class C11(vlib.PropertyCheck):
 
     def build_impl(self):
         return L.build_impl_consistent(self)
+
+    def extra_steps(self, ctx):
+        rng = ctx['rng']
+        cases = (L.gen_unmatched(rng, [160, 256, 300]) + L.gen_chain([160, 256, 300]) + L.gen_tables(rng, [20, 160, 255]) +
+                 L.gen_open(rng) + ['find 4095 -1 1,2', 'find 2047 2047 1,2', 'find 10 5 4077,4078,4079,69613,69614'])
+        return L.impl_faults(self, ctx, cases)
 
     def search_gen(self, tier, rng):
         return (L.gen_unmatched(rng, [159, 160, 161, 255]) + L.gen_tables(rng, [19, 20, 159, 160, 161, 255]) +
